@@ -15,7 +15,7 @@ rm -rf _seed
 RESULTS=""
 for P in $PID $OTHERS; do
   S=$(date +%s)
-  OUT=$(cd /verif && HX_REPO="$D/repo" HX_NOEVIDENCE=1 HX_REPLAY_DIR="$D/replays" timeout 1800 /venv/bin/python -m hx $P --tier quick 2>&1); RC=$?
+  OUT=$(cd /verif && HX_REPO="$D/repo" HX_NOEVIDENCE=1 HX_FAILFAST=1 HX_REPLAY_DIR="$D/replays" timeout 1800 /venv/bin/python -m hx $P --tier quick 2>&1); RC=$?
   E=$(( $(date +%s) - S ))
   V=$(echo "$OUT" | grep -m1 '^violation' | cut -c1-220)
   RESULTS="$RESULTS$P:rc=$RC:${E}s;"
